@@ -1,7 +1,7 @@
 SPECIFICATION Spec
 CONSTANTS
   Chars <- SmallChars
-  MaxRows = 2
+  MaxRows = 3
   MaxCells = 2
   MaxLen = 1
   FeatureSets <- StructureFeatures
